@@ -154,7 +154,6 @@ func cmdList(args []string) {
 	}
 }
 
-
 // cmdEffects prints the inferred effect summary of functions (debugging aid).
 func cmdEffects(args []string) {
 	P, DB, err := loadAll(nil)
